@@ -2,7 +2,7 @@
 from typing import Dict
 
 from .engine import Batch, Check
-from . import c18, gen_a, gen_b, gen_f, oracles_a, oracles_c20, oracles_rules
+from . import c07, c18, gen_a, gen_b, gen_f, oracles_a, oracles_c20, oracles_rules
 
 
 def _wd_c03(where):
@@ -236,5 +236,15 @@ def registry() -> Dict[str, Check]:
              "configs must be rejected with the documented error within the watchdog. Non-trivial = >= 3 entities compared "
              "or a hostile config rejected.",
         need_probes=["c18_legacy_key", "c18_fcn_params_checked", "c18_event_checked"],
+    )
+    reg["C07"] = Check(
+        "C07", {"C07"},
+        [Batch("A-kitchen", c07.gen_kitchen, 60, 1500, driver="A", run=c07.run_c07, budget_s=240.0, profile="kitchen")],
+        nontrivial=lambda s: s["stats"].get("fills", 0) > 0 and s["stats"].get("expiries", 0) > 0,
+        rule="Kitchen-sink driver-A scenarios (all built-in agent, market and event types, correlated fundamentals, "
+             "scripted agents drawing from the global generators, probes), each executed in process under two other "
+             "global-generator states, after an unrelated run, and in two (quick) or three (thorough) fresh interpreters "
+             "under other hash seeds; non-trivial = the run had fills and expiries.",
+        need_probes=["fresh_interpreter_runs", "global_generator_perturbations"],
     )
     return reg
